@@ -389,6 +389,13 @@ func propC11(c *Check) {
 		now := Extract(0, Call("common.ParseCustodianUpdateNodesExtra"))
 		prevNil := BinEither(token.EQL, prev, ConstNil)
 		starts := findIfs(f, prevNil)
+		negated := false
+		if len(starts) == 0 {
+			// `if prev != nil { ... }` form of the same test
+			prevNil = BinEither(token.NEQ, prev, ConstNil)
+			starts = findIfs(f, prevNil)
+			negated = true
+		}
 		sets := findCalls(f, "(*github.com/dgraph-io/badger/v4.Txn).Set")
 		if len(starts) != 1 || len(sets) != 1 {
 			c.Undecided("anchor", shortName(f)+"|prev == nil test / single Set", "one `prev == nil` test and one record write", "found "+itoa(len(starts))+" / "+itoa(len(sets)))
@@ -408,7 +415,11 @@ func propC11(c *Check) {
 				for pt := int64(0); pt <= 2; pt++ {
 					for nc := int64(0); nc <= 1; nc++ {
 						for pc := int64(0); pc <= 1; pc++ {
-							env := map[string]int64{"b:prevNil": pn, "prevTs": pt, "snapTime": 1, "nowCust": nc, "prevCust": pc}
+							leafV := pn
+							if negated {
+								leafV = 1 - pn
+							}
+							env := map[string]int64{"b:prevNil": leafV, "prevTs": pt, "snapTime": 1, "nowCust": nc, "prevCust": pc}
 							tb, err := runFragment(starts[0].Block(), leaves, env, stop)
 							if err != nil {
 								evalErr = err.Error()
